@@ -16,7 +16,7 @@ Definition topic_bytes (prefix : bytes) (t : topic) : bytes :=
 
 Definition out_obs (prefix : bytes) (o : out) : obs :=
   match o with
-  | OSub => OL [OZ 0]
+  | OSub => OL [OZ 0; Obytes (prefix ++ SETTINGS ++ [47; 35]%N); OZ 1]
   | OPub t pl r c cd => OL [OZ 1; Obytes (topic_bytes prefix t); Obytes pl; OB r; OZ (code_id c); Oopt Obytes cd]
   end.
 
